@@ -33,4 +33,12 @@ theorem tr_Check_eq_kv (str : Bytes) :
 example : Field.Check [1, 97, 2, 98, 99] = .ok ([1, 97, 2, 98, 99], false) := by decide +kernel
 example : Field.Check [1, 97, 3, 98, 99] = .ok ([], true) := by decide +kernel
 
+/-- `(Fields).IsEmpty()` -/
+theorem tr_Fields_IsEmpty_eq (f : Bytes) : Field.Fields_IsEmpty f = .ok f.isEmpty := by
+  cases f with
+  | nil => simp [Field.Fields_IsEmpty, len]
+  | cons x xs =>
+    have : ¬ ((xs.length : Int) + 1 = 0) := by omega
+    simp [Field.Fields_IsEmpty, len, this]
+
 end Logrange.Props.TRField
